@@ -22,6 +22,14 @@ const (
 	Control       Attributes = 1 << 5
 )
 
+// logAppendTime is the timestamp-type bit of the attributes of a v2 record
+// batch and of a v1 message: the broker sets it for topics configured with
+// message.timestamp.type=LogAppendTime. The timestamp of the records of such
+// a batch is the append time found in the batch header (the max timestamp of
+// a v2 batch, the timestamp of a v1 wrapper message), not the value found in
+// the records, which remains what the producer wrote.
+const logAppendTime Attributes = 1 << 3
+
 func (a Attributes) Compression() compress.Compression {
 	return compress.Compression(a & 7)
 }
